@@ -210,9 +210,9 @@ class Scan(Generic[Carry, Y], GenerativeFunction[tuple[Carry, Y]]):
             tuple[PRNGKey, IntArray, Carry], tuple[Trace[tuple[Carry, Y]], Y, Score]
         ]:
             key, count, carried_value = carry
-            key = jax.random.fold_in(key, count)
+            sub_key = jax.random.fold_in(key, count)
 
-            tr = self.kernel_gen_fn.simulate(key, (carried_value, scanned_in))
+            tr = self.kernel_gen_fn.simulate(sub_key, (carried_value, scanned_in))
             (carried_out, scanned_out) = tr.get_retval()
             score = tr.get_score()
 
@@ -265,12 +265,12 @@ class Scan(Generic[Carry, Y], GenerativeFunction[tuple[Carry, Y]]):
             tuple[Trace[tuple[Carry, Y]], Y, Score, Weight],
         ]:
             key, idx, carried_value = carry
-            key = jax.random.fold_in(key, idx)
+            sub_key = jax.random.fold_in(key, idx)
             submap = constraint.get_submap(idx)
             subconstraint = submap
 
             (carried_out, score), (tr, scanned_out, w) = _inner_generate(
-                key, subconstraint, carried_value, scanned_over
+                sub_key, subconstraint, carried_value, scanned_over
             )
 
             return (key, idx + 1, carried_out), (tr, scanned_out, score, w)
@@ -306,9 +306,9 @@ class Scan(Generic[Carry, Y], GenerativeFunction[tuple[Carry, Y]]):
             subtrace: Trace[Any],
         ) -> tuple[tuple[PRNGKey, IntArray], Weight]:
             key, idx = carry
-            key = jax.random.fold_in(key, idx)
+            sub_key = jax.random.fold_in(key, idx)
             w = subtrace.project(
-                key,
+                sub_key,
                 selection,
             )
 
@@ -465,11 +465,11 @@ class Scan(Generic[Carry, Y], GenerativeFunction[tuple[Carry, Y]]):
         ]:
             key, idx, carried_value = carry
             subtrace, scanned_in = scanned_over
-            key = jax.random.fold_in(key, idx)
+            sub_key = jax.random.fold_in(key, idx)
             (
                 (carried_out, score),
                 (new_subtrace, scanned_out, w, inner_bwd_request),
-            ) = _inner_edit(key, subtrace, selection, carried_value, scanned_in)
+            ) = _inner_edit(sub_key, subtrace, selection, carried_value, scanned_in)
 
             return (key, idx + 1, carried_out), (
                 new_subtrace,
@@ -556,13 +556,13 @@ class Scan(Generic[Carry, Y], GenerativeFunction[tuple[Carry, Y]]):
         ]:
             key, idx, carried_value = carry
             subtrace, scanned_in = scanned_over
-            key = jax.random.fold_in(key, idx)
+            sub_key = jax.random.fold_in(key, idx)
             subconstraint = constraint(idx)
             assert isinstance(subconstraint, ChoiceMap)
             (
                 (carried_out, score),
                 (new_subtrace, scanned_out, w, inner_bwd_request),
-            ) = _inner_edit(key, subtrace, subconstraint, carried_value, scanned_in)
+            ) = _inner_edit(sub_key, subtrace, subconstraint, carried_value, scanned_in)
             assert isinstance(inner_bwd_request, Update)
             bwd_chm = inner_bwd_request.constraint
 
